@@ -95,14 +95,18 @@ def ite(c, a, b):
 
 def mk_seq(elem, n, arr):
     st = T.Seq(elem)
-    return SV(st, st.mk(n, arr))
+    return SV(st, st.mk(n, arr), aux=('seq', n, arr))
 
 
 def seq_len(v):
+    if isinstance(v.aux, tuple) and v.aux and v.aux[0] == 'seq':
+        return v.aux[1]
     return v.t.len(v.z)
 
 
 def seq_arr(v):
+    if isinstance(v.aux, tuple) and v.aux and v.aux[0] == 'seq':
+        return v.aux[2]
     return v.t.arr(v.z)
 
 
